@@ -219,6 +219,27 @@ theorem oldUdfWrite_traps : (udfWrite false [.int, .dur, .int]).2 = .trap := by 
 the driver uses this fact to choose the repaired writer model. -/
 theorem udf_has_no_explicit_panic : Gen.udfPanicSites = [] := by decide
 
+/-! ### Slice expressions of the builtin functions (data-dependent indexes) -/
+
+/-- Every slice / index expression in the builtins' `Call` methods (tick/stateful/functions.go) has one of the two recognised guarded
+shapes (extracted; anything else — a slice of a converted value such as `[]rune(str)[a:b]`, a guard on a
+different length, a new unguarded index — is emitted as `unknown` and breaks this theorem). -/
+theorem builtin_slice_sites_recognised : ∀ s ∈ Gen.funcSliceSites, s.recognised = true := by decide
+
+/-- … and the recognised shapes never panic, for all lengths and index arguments, PROVIDED the guard
+compares with the length of the operand that is sliced (`glen = slen`: what `guardedString` certifies). -/
+theorem guarded_slice_never_traps (slen lo hi : Int) : guardedSlice slen slen lo hi ≠ .trap := by
+  unfold guardedSlice; repeat' split
+  all_goals first | (intro h; cases h; done) | (exfalso; omega)
+
+theorem range_slice_never_traps (len i : Int) : rangeSlice len i ≠ .trap := by
+  unfold rangeSlice; repeat' split
+  all_goals first | (intro h; cases h; done) | (exfalso; omega)
+
+/-- Counterexample for the CLASS (a guard on the byte length, a slice of the rune slice): 40 two-byte
+runes, `stop = 48 ≤ 80 = len(str)` but `48 > 40 = len([]rune(str))`. -/
+theorem mismatched_guard_traps : guardedSlice 40 80 0 48 = .trap := by decide
+
 /-! ### The JSON node factory -/
 
 /-- **getNode_total**: over the extracted `typeOf` switch, every tag either allocates a concrete node or is
